@@ -32,6 +32,14 @@ tvars == <<l, stack>>
 \* "ALL" = every conjunct except C17's (its field is only filled when the harness is asked to)
 Enforced(p) == (PROP = "ALL" /\ p # "C17") \/ PROP = p
 
+\* A root that came out of the parser with an unsupported piece already standing on a trap (the parser
+\* does not validate) is not a position of the game: the statements that assume legal positions (a
+\* pending push can be completed, one step removes one piece, ...) do not apply to the game that
+\* follows.  C02 and C10 do speak about it ("every piece standing on a trap with no friendly neighbour
+\* is removed", "once any action has been applied no piece stands on a trap unsupported"), so those
+\* two conjuncts - and only those - are evaluated on such games (field uc of the state).
+En(p, st) == Enforced(p) /\ (~st.uc \/ p \in {"C02", "C10"})
+
 \* a failing conjunct reports itself and is false
 Chk(p, what, cond) ==
   IF cond THEN TRUE ELSE PrintT("FAIL " \o p \o " line " \o ToString(l) \o " : " \o what) /\ FALSE
@@ -57,7 +65,8 @@ RootState(e) ==
    hx   |-> IF e.ph = 1 THEN <<e.th>> ELSE <<>>,
    zh   |-> IF e.ph = 1 THEN <<<<e.b, e.s>>>> ELSE <<>>,
    tr |-> FALSE,
-   lo |-> SetOf(e.off), ln |-> e.norep, lv |-> e.pv, ldg |-> e.dg, seen |-> <<>>]
+   lo |-> SetOf(e.off), ln |-> e.norep, lv |-> e.pv, ldg |-> e.dg, seen |-> <<>>,
+   uc |-> ~TrapClean(e.b)]
 
 ChildState(pre, e) ==
   LET ended == e.ph = 1 /\ e.st = 0
@@ -74,7 +83,8 @@ ChildState(pre, e) ==
             ELSE IF fresh THEN <<<<e.b, e.s>>>>
             ELSE Append(IF pre.tr \/ cap THEN <<>> ELSE pre.zh, <<e.b, e.s>>),
    tr |-> IF ended THEN FALSE ELSE (pre.tr \/ cap),
-   lo |-> SetOf(e.off), ln |-> e.norep, lv |-> e.pv, ldg |-> e.dg, seen |-> <<>>]
+   lo |-> SetOf(e.off), ln |-> e.norep, lv |-> e.pv, ldg |-> e.dg, seen |-> <<>>,
+   uc |-> pre.uc]
 
 \* C18: the digests (of the complete observation) of the children seen so far, per action
 \* (a pair: digest of the complete observation, digest of the move-generation answers only)
@@ -193,8 +203,11 @@ PreviewTuple(b, a) ==
 
 C13_State(e, cs) ==
   \* the statement speaks about OFFERED actions; previews of rule actions that are withheld in this
-  \* state are logged too but not judged
-  LET offered == SetOf(e.off) IN
+  \* state are logged too but not judged.  A position parsed from text may already contain an
+  \* unsupported piece on a trap (the parser does not validate; C10 covers what happens to it): there
+  \* one step removes that piece as well, so "the one piece" is not defined - such states are judged by
+  \* C02 and C10, not here.
+  LET offered == IF TrapClean(e.b) THEN SetOf(e.off) ELSE {} IN
   /\ Chk("C13", "capture preview differs from what the step removes",
          Len(e.pv) = Len(e.norep) /\
          \A k \in 1..Len(e.norep) : e.norep[k] \in offered => e.pv[k] = PreviewTuple(e.b, e.norep[k]))
@@ -247,19 +260,19 @@ X01_State(e, cs) ==
                   e.norep = ImplOrder(e.b, e.s, e.st, e.pp))
 
 StateConjuncts(e, cs) ==
-  /\ (PROP = "X01" => X01_State(e, cs))
-  /\ (Enforced("C17") => C17_State(e, cs))
-  /\ (Enforced("C01") => C01_State(e, cs))
-  /\ (Enforced("C04") => C04_State(e, cs))
-  /\ (Enforced("C05") => C05_State(e, cs))
-  /\ (Enforced("C06") => C06_State(e, cs))
-  /\ (Enforced("C07") => C07_State(e, cs))
-  /\ (Enforced("C08") => C08_State(e, cs))
-  /\ (Enforced("C09") => C09_State(e, cs))
-  /\ (Enforced("C10") => C10_State(e, cs))
-  /\ (Enforced("C13") => C13_State(e, cs))
-  /\ (Enforced("C14") => C14_State(e, cs))
-  /\ (Enforced("C15") => C15_State(e, cs))
+  /\ ((PROP = "X01" /\ ~cs.uc) => X01_State(e, cs))
+  /\ (En("C17", cs) => C17_State(e, cs))
+  /\ (En("C01", cs) => C01_State(e, cs))
+  /\ (En("C04", cs) => C04_State(e, cs))
+  /\ (En("C05", cs) => C05_State(e, cs))
+  /\ (En("C06", cs) => C06_State(e, cs))
+  /\ (En("C07", cs) => C07_State(e, cs))
+  /\ (En("C08", cs) => C08_State(e, cs))
+  /\ (En("C09", cs) => C09_State(e, cs))
+  /\ (En("C10", cs) => C10_State(e, cs))
+  /\ (En("C13", cs) => C13_State(e, cs))
+  /\ (En("C14", cs) => C14_State(e, cs))
+  /\ (En("C15", cs) => C15_State(e, cs))
 
 \* ---- conjuncts on the transition pre --a--> e ----
 
@@ -308,7 +321,7 @@ C12_Trans(pre, a, n, e, cs) ==
 
 \* the preview logged in the parent for the action now played = what disappeared
 C13_Trans(pre, a, e) ==
-  (pre.ph = 1 /\ IsMove(a) /\ a \in pre.lo) =>
+  (pre.ph = 1 /\ IsMove(a) /\ a \in pre.lo /\ TrapClean(pre.b)) =>
     LET m == MoveRaw(pre.b, a[1], a[2])
         gone == {k \in Sq : m[k] # 0 /\ e.b[k] = 0}
         idx == {k \in 1..Len(pre.ln) : pre.ln[k] = a}
@@ -320,12 +333,12 @@ C13_Trans(pre, a, e) ==
                                   IN <<j, Type(m[j]), Owner(m[j])>>)
 
 TransConjuncts(pre, a, n, e, cs) ==
-  /\ (Enforced("C02") => C02_Trans(pre, a, e))
-  /\ (Enforced("C03") => C03_Trans(pre, a, n, e))
-  /\ (Enforced("C05") => C05_Trans(pre, a, e, cs))
-  /\ (Enforced("C09") => C09_Trans(pre, a, n, e))
-  /\ (Enforced("C12") => C12_Trans(pre, a, n, e, cs))
-  /\ (Enforced("C13") => C13_Trans(pre, a, e))
+  /\ (En("C02", pre) => C02_Trans(pre, a, e))
+  /\ (En("C03", pre) => C03_Trans(pre, a, n, e))
+  /\ (En("C05", pre) => C05_Trans(pre, a, e, cs))
+  /\ (En("C09", pre) => C09_Trans(pre, a, n, e))
+  /\ (En("C12", pre) => C12_Trans(pre, a, n, e, cs))
+  /\ (En("C13", pre) => C13_Trans(pre, a, e))
 
 ---------------------------------------------------------------------------
 
